@@ -6,7 +6,7 @@
 ID=$1
 W=/tmp/seed/$ID; O=/tmp/seed/out/$ID
 export GOFLAGS=-mod=mod GOPROXY=off GOSUMDB=off GOTOOLCHAIN=local
-cmd=$(python3 -c "import json; print(json.load(open('$O/meta.json'))['demo_cmd'].split('#')[0].strip())")
+cmd=$(python3 -c "import json; print(json.load(open('$O/meta.json'))['demo_cmd'].split('#')[0].split('   (')[0].strip())")
 git -C $W checkout -q -- . 2>/dev/null
 git -C $W apply $O/patch.diff || { echo "patch does not apply to the worktree"; exit 2; }
 ( eval "$cmd" ) > $O/confirm_with.txt 2>&1; with=$?
